@@ -23,7 +23,10 @@ def element_xml(name, entries, var):
                  '<entry><string>Description</string><string>' + var.choice(["Label", "Bits", "Testdata", "InDefault", "x"]) + '</string></entry>']
         entries = entries + [x for x in extra if var.random() < 0.5]
         var.shuffle(entries)
-    parts = [f"<elementName>{name}</elementName>", "<elementAttributes>" + "".join(entries) + "</elementAttributes>", '<pos x="0" y="0"/>']
+        # an attribute entry without element children in front of the others: it is no attribute, the ones behind it still count
+        if var.random() < 0.3:
+            entries = [var.choice(["<entry/>", "<entry>text</entry>"])] + entries
+    parts = ([] if name == "__none__" else [f"<elementName>{name}</elementName>"]) + ["<elementAttributes>" + "".join(entries) + "</elementAttributes>", '<pos x="0" y="0"/>']
     if var is not None:
         var.shuffle(parts)
     return "<visualElement>" + "".join(parts) + "</visualElement>"
@@ -211,6 +214,8 @@ HAND = [
     [P("In", "A"), P("In", "B", 2, "Z"), P("Out", "Y"), T("t1", "A B Y\n0 0 0\n"), T("t2", "B B_out\n1 1\n")],
     # duplicate labels
     [P("In", "A", 1, 1), P("In", "A", 2, 3), P("Out", "Y"), T("t", "A A_out Y\n0 0 0\n")],
+    # an element without any <elementName> is no pin and no test either
+    [P("In", "A"), P("__none__", "NONAME", 4, 1), P("Out", "Y"), T("t", "A Y\n0 0\n")],
     # an element whose name is empty is no pin and no test
     [P("In", "A"), P("", "GHOST", 4, 1), P("Out", "Y"), dict(kind="", label="t0", bits=None, default=None), T("t", "A Y\n0 0\n")],
     # labels that read like attribute keys or element names
